@@ -427,6 +427,10 @@ def choose_op(regs, obs, rng, weights, sym, allow_invalid=0.08):
             if rng.random() < 0.2:
                 axes = axes + [k for k in range(lr) if k not in f][:1]
             return {'op': 'unfuse', 'a': a, 'axes': axes}
+        if kind == 'swap_charge':
+            if lr < 1 or not SYMS[sym]:
+                continue
+            return {'op': 'swap_charge', 'a': a, 'axes': rng.sample(range(lr), rng.randint(1, min(lr, 3))), 'charge': list(rand_charge(SYMS[sym], rng, 2))}
         if kind == 'swap_gate':
             if lr < 2 or not SYMS[sym]:
                 continue
@@ -531,6 +535,8 @@ def apply_op(op, regs):
             return 'ok', a.fuse_legs(axes=axes, mode=None if op['mode'] == 'none' else op['mode'])
         if k == 'unfuse':
             return 'ok', a.unfuse_legs(axes=tuple(op['axes']) if len(op['axes']) != 1 else op['axes'][0])
+        if k == 'swap_charge':
+            return 'ok', a.swap_gate(axes=tuple(op['axes']), charge=tuple(op['charge']))
         if k == 'swap_gate':
             axes = []
             for g1, g2 in op['pairs']:
